@@ -131,8 +131,27 @@ class C05(ProgramCheck):
     def full_override_nodes(self, tier):
         return 2 if tier == "quick" else 3
 
+    def shards(self, tier):
+        return super().shards(tier) + [("open-ended", 0)]
+
+    def open_ended_programs(self):
+        """aliases whose omitted bounds follow a let-sized source: `register q[sz]; map a q[1:]`"""
+        for lo, st in itertools.product((None, 0, 1), (None, 1, 2)):
+            for chain in (0, 1):
+                header = (("let", "sz", 3), ("let", "k", 1), ("register", "q", "sz"), ("map", "a", "q", lo, None, st))
+                body = [A.gate("g", A.item("a", 0)), A.gate("h", "a")]
+                if chain:
+                    header += (("map", "b", "a"),)
+                    body += [A.gate("h", "b"), A.gate("g", A.item("b", 0))]
+                yield A.prog(header, tuple(body))
+
     def cases(self, tier, shard):
         shard = tuple(shard)
+        if shard[0] == "open-ended":
+            for p in self.open_ended_programs():
+                for sz in (None, 2, 3, 4, 5):
+                    yield (p, () if sz is None else (("sz", sz),))
+            return
         for p in self.programs(tier, shard):
             nodes = sum(A.node_count(st) for st in p[2] if st[0] != "macro")
             if shard[0] == "pool" and nodes <= self.full_override_nodes(tier):
